@@ -5,7 +5,7 @@ subclasses SQLiteSchema / PGSchema / MySQLSchema / OraSchema with their column/t
 of the four providers (normalize_name, get_default_index_name, get_default_fk_name, get_default_m2m_table_name,
 get_default_m2m_column_names, get_default_column_names) and, in `mapping_*`, the real Database.generate_mapping.
 The providers are instantiated without a connection (`object.__new__` on a subclass: the name functions and the schema
-classes only read class attributes); the subclass lowers `max_name_len` (8 or 10) so that truncation happens with the
+classes only read class attributes); the subclass lowers `max_name_len` (4, 6, 8, 9 or 10) so that truncation happens with the
 short names the solver can explore.
 
 Symbolic (solver-chosen): every option flag, the dialect where it is an argument, the adjacency matrix of the
@@ -28,7 +28,16 @@ Reference statements (this file, not pony's code):
     non-unique indexes as separate CREATE INDEX objects after their table, foreign keys as the dialect does it
     (inline / table-level on SQLite, ALTER TABLE .. ADD CONSTRAINT elsewhere) with ON DELETE exactly when declared;
   * creation order: every table once; if the parent relation is acyclic every table comes after its parents; with named
-    foreign keys every foreign key is emitted exactly once and after both of its tables (also for cyclic graphs).
+    foreign keys every foreign key is emitted exactly once and after both of its tables (also for cyclic graphs);
+  * whole mappings (2 entities with relations / 1 entity with colliding attribute names, real generate_mapping on a fake
+    pool): refused with MappingError/DBSchemaError/ERDiagramError or: every generated name within the limit, canonical and
+    distinct; one column per mapped attribute column with the documented nullability (Required: NOT NULL; Optional: NULL,
+    except strings outside Oracle that are neither unique nor part of a composite key/index); primary key, unique
+    indexes, composite keys, indexes on foreign key columns, foreign keys to the parent's key with the documented
+    ON DELETE, m2m tables with a composite key and two cascading foreign keys; CREATE TABLE has one line per column.
+
+Findings on the unchanged tree have their own harnesses (oracle_auto_pk_names*, order_qualified) so that they do not
+mask anything else.
 """
 import os
 from engine.ch import ok
@@ -41,7 +50,7 @@ from pony.orm.core import DBSchemaError
 
 DIALECTS = ('sqlite', 'postgres', 'mysql', 'oracle')
 THOROUGH = os.environ.get('C26_THOROUGH') == '1'
-# identifier pool: all strings of length 1..2 over {a, A, _} (12); thorough adds a second letter and a digit
+# identifier pool: all strings of length 1..2 over {a, A, _} (12 names); thorough adds a second letter (20 names)
 _AL = 'aA_b' if THOROUGH else 'aA_'
 POOL = [a + b for a in ('',) + tuple(_AL) for b in _AL]
 POOL1 = ['a', 'A', '_a'] + (['b'] if THOROUGH else [])      # column names ("_a": separator ambiguity with table "a_")
